@@ -82,12 +82,21 @@ def strategy(tier, mode):
     # (one_of de-duplicates a strategy object listed several times: build one object per listed branch)
     small = lambda: gen.expression_case(mode, cap=20, max_len=4, depth=2, allow_cg=False)  # noqa: E731
     big = lambda: gen.expression_case(mode, cap=36, max_len=7, depth=3, allow_cg=False)  # noqa: E731
+    from .c04 import complex_case  # complex coefficients (and data): the transpose does not conjugate
+    from .c10 import single_case as block_case  # wide block operators (9-17 blocks): column <-> row transposes
+
     if tier == 'quick':
-        return st.one_of(small(), small(), small(), small(), small(), symmetric_composite_case(mode), dense_roles_case(mode))
-    return st.one_of(small(), small(), small(), big(), big(), symmetric_composite_case(mode), dense_roles_case(mode))
+        return st.one_of(small(), small(), small(), small(), small(), symmetric_composite_case(mode), dense_roles_case(mode),
+                         complex_case(tier, mode), block_case(mode, wide=True, allow_cg=False))
+    return st.one_of(small(), small(), small(), big(), big(), symmetric_composite_case(mode), dense_roles_case(mode),
+                     complex_case(tier, mode), block_case(mode, wide=True, allow_cg=False))
 
 
 def check(case, mode):
+    if 'complex' in case:
+        from .c04 import _check_complex
+
+        return _check_complex(case['complex'], mode)
     import lineax as lx
 
     from furax._base.core import TransposeOperator
